@@ -55,6 +55,14 @@ def _single_assign(st):
     return None
 
 
+def _single_return(st):
+    while isinstance(st, dict) and st.get("k") == "seq" and len(st.get("s", [])) == 1:
+        st = st["s"][0]
+    if isinstance(st, dict) and st.get("k") == "ret" and st.get("e") is not None:
+        return st
+    return None
+
+
 def normalise_ite(node):
     """`if (c) x = a; else x = b;` (both arms a single plain assignment to the same place) is rewritten in place as `x = c ? a : b;`:
     the two spellings are the same program, and the rules (value origins, routing sources) are written over the expression form."""
@@ -68,6 +76,10 @@ def normalise_ite(node):
         if isinstance(v, (dict, list)):
             node[k] = normalise_ite(v)
     if node.get("k") == "if" and node.get("e") is not None and node.get("init") is None and node.get("cvar") is None:
+        ra, rb = _single_return(node.get("t")), _single_return(node.get("e"))
+        if ra is not None and rb is not None:
+            # `if (c) return x; else return y;`  ==  `return c ? x : y;`
+            return {"k": "ret", "l": node.get("l"), "e": {"k": "cond", "c": node["c"], "t": ra["e"], "f": rb["e"], "l": node.get("l"), "ty": (ra["e"] or {}).get("ty")}}
         a, b = _single_assign(node.get("t")), _single_assign(node.get("e"))
         if a is not None and b is not None and json.dumps(a["lhs"], sort_keys=True) == json.dumps(b["lhs"], sort_keys=True):
             asg = dict(a)
@@ -75,6 +87,98 @@ def normalise_ite(node):
             asg["l"] = node.get("l", a.get("l"))
             return asg
     return node
+
+
+def _stmt_expr(st):
+    if isinstance(st, dict) and st.get("k") == "expr":
+        return st.get("e")
+    return st
+
+
+def _is_step_of(st, name):
+    """`++name`, `name++`, `name += k`, `name -= k`, `--name` as a statement"""
+    e = strip(_stmt_expr(st))
+    if not isinstance(e, dict):
+        return False
+    if e.get("k") == "un" and e.get("op") in ("++", "--"):
+        v = strip(e.get("e"))
+        return isinstance(v, dict) and v.get("k") == "var" and v.get("n") == name
+    if e.get("k") == "asg" and e.get("op") in ("+=", "-="):
+        v = strip(e.get("lhs"))
+        return isinstance(v, dict) and v.get("k") == "var" and v.get("n") == name
+    return False
+
+
+def normalise_while(node):
+    """`T i = a; while (c) { body; ++i; }` (the loop directly follows the declaration of its counter, the step is the last statement of
+    the body and the body has no `continue`) is rewritten in place as `for (T i = a; c; ++i) { body }`: the same loop, and the spelling
+    the rules are written over."""
+    if isinstance(node, list):
+        for x in node:
+            normalise_while(x)
+        return node
+    if not isinstance(node, dict):
+        return node
+    for v in node.values():
+        if isinstance(v, (dict, list)):
+            normalise_while(v)
+    if node.get("k") == "seq":
+        ss = node.get("s", [])
+        i = 1
+        while i < len(ss):
+            w, d = ss[i], ss[i - 1]
+            if (isinstance(w, dict) and w.get("k") == "while" and isinstance(d, dict) and d.get("k") == "decl" and len(d.get("vars", [])) == 1
+                    and isinstance(w.get("b"), dict) and w["b"].get("k") == "seq" and w["b"].get("s")):
+                name = d["vars"][0].get("n")
+                body = w["b"]["s"]
+                if name and _is_step_of(body[-1], name) and not any(x.get("k") == "cont" for x in walk(w["b"])):
+                    loop = {"k": "for", "l": w.get("l"), "init": d, "c": w.get("c"), "inc": strip(_stmt_expr(body[-1])), "b": {"k": "seq", "l": w["b"].get("l"), "s": body[:-1]}}
+                    ss[i - 1:i + 1] = [loop]
+                    continue
+            i += 1
+    return node
+
+
+def const_local_defs(body):
+    """name -> initialiser for locals declared exactly once, const (or never assigned afterwards), with an initialiser"""
+    decl, assigned = {}, set()
+    for x in walk(body):
+        if x.get("k") == "decl":
+            for v in x.get("vars", []):
+                n = v.get("n")
+                if n:
+                    decl.setdefault(n, []).append(v)
+        elif x.get("k") == "asg":
+            l = strip(x.get("lhs"))
+            if isinstance(l, dict) and l.get("k") == "var":
+                assigned.add(l.get("n"))
+        elif x.get("k") == "un" and x.get("op") in ("++", "--"):
+            l = strip(x.get("e"))
+            if isinstance(l, dict) and l.get("k") == "var":
+                assigned.add(l.get("n"))
+    return {n: vs[0]["init"] for n, vs in decl.items() if len(vs) == 1 and vs[0].get("init") is not None and n not in assigned and not vs[0].get("ref")}
+
+
+def subst_locals(e, defs, depth=0):
+    """copy of expression `e` with single-assignment locals replaced by their initialisers (a named temporary is the expression it names)"""
+    if isinstance(e, list):
+        return [subst_locals(x, defs, depth) for x in e]
+    if not isinstance(e, dict):
+        return e
+    if e.get("k") == "var" and e.get("d") == "local" and e.get("n") in defs and depth < 12:
+        return subst_locals(defs[e["n"]], defs, depth + 1)
+    return {k: (subst_locals(v, defs, depth) if isinstance(v, (dict, list)) else v) for k, v in e.items()}
+
+
+def truthy(e):
+    """`x != 0` / `0 != x`  ->  x (the condition's operand), else e"""
+    c = strip(e)
+    if isinstance(c, dict) and c.get("k") == "bin" and c.get("op") == "!=":
+        l, r = strip(c["lhs"]), strip(c["rhs"])
+        for a, o in ((l, r), (r, l)):
+            if isinstance(a, dict) and (a.get("k") == "zero" or (a.get("k") == "lit" and a.get("v") in (0, "0")) or a.get("cv") == 0) and isinstance(o, dict):
+                return o
+    return e
 
 
 def is_noop(s):
@@ -200,6 +304,19 @@ def bool_paths(e):
         return bool_paths(e["e"])
     if k == "lit":
         return [([], bool(e.get("v")))]
+    if k == "paren":
+        return bool_paths(e.get("e"))
+    if k == "bin" and e.get("op") in ("!=", "==") and e.get("ty") in (None, "bool"):
+        # `x != 0` / `0 != x` is the truth value of x, `x == 0` its negation (x of integral / pointer / bool type): same events as `if (x)`
+        l, r = strip(e["lhs"]), strip(e["rhs"])
+
+        def zero(n):
+            return isinstance(n, dict) and (n.get("k") == "zero" or (n.get("k") == "lit" and n.get("v") in (0, False, "0", "false", "nullptr")) or
+                                            (n.get("cv") in (0, False) and n.get("k") in ("lit", "cast")))
+        other = r if zero(l) else (l if zero(r) else None)
+        if other is not None and not zero(other) and other.get("ty") not in ("float", "double", "long double"):
+            ps = bool_paths(other)
+            return ps if e["op"] == "!=" else [(p, not t) for p, t in ps]
     out = []
     for p in val_paths(e):
         out.append((p + [("assume", e, True)], True))
